@@ -32,6 +32,55 @@ func scenarioSegments() int {
 		nstreams = ev.Pick(300, 6000)
 	}
 	seq, msgsOK, segsWritten := 0, 0, 0
+	// meanwhile, on connections of their own: a client gets an answer written to its connection,
+	// then sends its next two messages with a pause of 6.5 s in the middle of the first one's body
+	// (time that passes between two segments is no part of the framing)
+	type slowTrack struct {
+		ids  []string
+		done chan string
+	}
+	var tracks []*slowTrack
+	for k := 0; k < 3; k++ {
+		svc := k % len(w.Svcs)
+		sv := w.Svcs[svc]
+		u := w.UAs[k%len(w.UAs)]
+		tr := &slowTrack{done: make(chan string, 1)}
+		tracks = append(tracks, tr)
+		mk := func(id string, body string) []byte {
+			m := wire.StdRequest(id, "MESSAGE", fmt.Sprintf("sip:svc%d.verif.test", svc), "tcp", u.IP, wire.UDPPort)
+			if sv.HasDef {
+				wire.SetHeader(m, "To", "<tel:+15550167>")
+			}
+			wire.WithBody(m, []byte(body))
+			return m.Bytes()
+		}
+		tr.ids = []string{fmt.Sprintf("slow%da", k), fmt.Sprintf("slow%db", k), fmt.Sprintf("slow%dc", k)}
+		go func(k int) {
+			cn, err := w.Net.Dial(fmt.Sprintf("ua%d/pause%d", u.Index, k), u.IP+":0", fmt.Sprintf("%s:%d", sv.IP, sv.TCP))
+			if err != nil {
+				tr.done <- "harness: dial failed"
+				return
+			}
+			defer cn.Close(false)
+			cn.Send(mk(tr.ids[0], "first"), tr.ids[0])
+			obs, ok := w.Net.WaitCase(tr.ids[0], func(o []*wire.Obs) bool { return len(o) >= 1 }, w.BarrierWait)
+			if !ok || obs[0].Msg == nil || !sv.BackendEndpointNames()[obs[0].Ep] {
+				tr.done <- "harness: first message not seen at a backend"
+				return
+			}
+			dw := &dialogWorld{World: w}
+			if !dw.respondFromBackend(svc, obs[0], tr.ids[0], 200, "t") {
+				tr.done <- "harness: answer did not come back"
+				return
+			}
+			b := mk(tr.ids[1], strings.Repeat("0123456789", 40))
+			cut := len(b) - 150 - 50*k
+			cn.Send(b[:cut], "")
+			time.Sleep(6500 * time.Millisecond)
+			cn.Send(append(b[cut:], mk(tr.ids[2], "third")...), "")
+			tr.done <- ""
+		}(k)
+	}
 	for s := 0; s < nstreams && run.Violations() <= 6; s++ {
 		if h := w.Health(); h != "" {
 			run.Violation("proxy died during the run (belongs to C08; the run cannot continue)", map[string]any{"health": h})
@@ -257,6 +306,29 @@ func scenarioSegments() int {
 		}
 		w.Net.Trim()
 	}
+	pausedOK := 0
+	for k, tr := range tracks {
+		select {
+		case why := <-tr.done:
+			if why != "" {
+				run.Inconclusive(1)
+				continue
+			}
+		case <-time.After(60 * time.Second):
+			run.Inconclusive(1)
+			continue
+		}
+		for _, id := range tr.ids[1:] {
+			obs, _ := w.Net.WaitCase(id, func(o []*wire.Obs) bool { return len(o) >= 1 }, w.BarrierWait)
+			if len(obs) != 1 || obs[0].Msg == nil || !strings.HasPrefix(string(obs[0].Msg.Body), map[bool]string{true: "0123456789", false: "third"}[id == tr.ids[1]]) {
+				run.Violation("a message whose segments were 6.5 s apart (after an answer had been written to the connection) was not extracted", map[string]any{"connection": k, "message": id, "copies_seen": len(obs)})
+				break
+			}
+			pausedOK++
+			run.Eval(fmt.Sprintf("pause-6.5s|conn%d|%s", k, id[len(id)-1:]))
+		}
+	}
+	run.Observe("messages_extracted_across_a_long_pause", pausedOK)
 	run.Observe("streams", nstreams)
 	run.Observe("segments_written", segsWritten)
 	run.Observe("messages_arrived_intact", msgsOK)
